@@ -5,7 +5,7 @@ from __future__ import annotations
 import ast
 
 from ..core import Ctx
-from ..model import AnalysisError, Func
+from ..model import AnalysisError, Func, norm_stmt
 from ..pattern import norm
 from ..prov import content_sources
 from ..terms import Term, alts, contains, ends_with_attrs, root_of, show, subterms
@@ -256,3 +256,70 @@ def none_contradictions(ctx: Ctx, res, f: Func, what: str) -> int:
             + ": the branches of a None test are swapped (the configured / filtered alternative is never taken, or the code raises)",
             construct=f"{f.name}: None-test polarity")
     return n_uses
+
+
+def param_mutations(ctx: Ctx, f: Func) -> list[tuple[ast.AST, str, str]]:
+    """In-place modifications of an array the caller handed in: `p op= x`, `p[...] = x`, `np.f(..., out=p)`,
+    `p.sort()/fill()/resize()` where the only definition of `p` reaching the statement is the parameter itself.
+    -> [(node, parameter, how)]"""
+    X = ctx.X
+    df = X.df(f)
+    out = []
+    params = set(f.params[1:] if f.cls is not None and not f.is_static and f.params else f.params)
+
+    def only_param(name: str, at: ast.AST) -> bool:
+        if name not in params:
+            return False
+        node = X.node_of(f, at)
+        if node is None:
+            return False
+        defs = [d for d in df.reaching(node, name) if d.kind != "unbound"]
+        return bool(defs) and all(d.kind == "param" for d in defs)
+
+    for n in ast.walk(f.node):
+        if isinstance(n, ast.AugAssign):
+            t = n.target
+            base = t
+            while isinstance(base, (ast.Subscript, ast.Attribute)):
+                base = base.value
+            if isinstance(base, ast.Name) and not isinstance(t, ast.Attribute) and only_param(base.id, n):
+                out.append((n, base.id, f"`{norm_stmt(n)[:50]}` operates in place"))
+        elif isinstance(n, ast.Assign):
+            for t in n.targets:
+                if isinstance(t, ast.Subscript):
+                    base = t.value
+                    while isinstance(base, ast.Subscript):
+                        base = base.value
+                    if isinstance(base, ast.Name) and only_param(base.id, n):
+                        out.append((n, base.id, f"`{norm_stmt(n)[:50]}` stores into it"))
+        elif isinstance(n, ast.Call):
+            for kw in n.keywords:
+                if kw.arg == "out" and isinstance(kw.value, ast.Name) and only_param(kw.value.id, n):
+                    out.append((n, kw.value.id, f"`{ast.unparse(n)[:50]}` writes its result into it"))
+            if isinstance(n.func, ast.Attribute) and n.func.attr in ("sort", "fill", "resize", "partition", "put", "itemset", "setfield") and isinstance(n.func.value, ast.Name) \
+                    and only_param(n.func.value.id, n):
+                out.append((n, n.func.value.id, f"`{ast.unparse(n)[:50]}` modifies it"))
+    return out
+
+
+def value_filtered_mappings(f: Func) -> list[tuple[ast.AST, str]]:
+    """Dict comprehensions / filter() calls in `f` that drop entries of a mapping depending on the entry's VALUE
+    (`{k: v for k, v in d.items() if v}`, `... if v is not None`): options a user set explicitly (0, False, None)
+    silently fall back to somebody's default.  -> [(node, text of the condition)]"""
+    out = []
+    for n in ast.walk(f.node):
+        if isinstance(n, ast.DictComp):
+            for g in n.generators:
+                if not g.ifs:
+                    continue
+                it = g.iter
+                if not (isinstance(it, ast.Call) and isinstance(it.func, ast.Attribute) and it.func.attr == "items"):
+                    continue
+                tgt = g.target
+                vname = tgt.elts[1].id if isinstance(tgt, ast.Tuple) and len(tgt.elts) == 2 and isinstance(tgt.elts[1], ast.Name) else None
+                if vname is None:
+                    continue
+                for cond in g.ifs:
+                    if any(isinstance(x, ast.Name) and x.id == vname for x in ast.walk(cond)):
+                        out.append((n, ast.unparse(cond)))
+    return out
